@@ -39,7 +39,8 @@ EXPLANATION = ("The metadata scanner is cut out of ports.cpp/ports.h on every ru
 SRC = "src/cpp/ports.cpp"
 HDR = "include/rtosc/ports.h"
 SUGAR = "include/rtosc/port-sugar.h"
-EXT = "C17_meta.inc"
+EXT = "C17_meta_iter.inc"      # metaiterator_advance + Port::MetaIterator methods
+EXT2 = "C17_meta_cont.inc"     # Port::MetaContainer methods + Port::meta (separate file so that a harness can put a callee contract between them)
 TYPES = "C17_meta_types.inc"
 ID = r"(?<![A-Za-z0-9_])%s(?![A-Za-z0-9_])"
 
@@ -108,8 +109,11 @@ def extract_meta(ctx):
           log, "MetaIterator::operator bool")
     out.append(t)
     out.append("#undef title\n#undef value")
+    text = "\n\n".join(out) + "\n"
+    extract.write(ctx, EXT, text)
 
     # ---------------- Port::MetaContainer
+    out = ["/* extracted from %s and %s on this run by props/C17.py - do not edit */" % (SRC, HDR)]
     out.append("#define str_ptr (self->str_ptr)")
     t = extract.cut_between(src, r"Port::MetaContainer::MetaContainer\(const char \*str_\)", r"\n\{\}")
     t = R(t, [("method", r"^Port::MetaContainer::MetaContainer\(const char \*str_\)", "void MetaContainer_ctor(struct MetaContainer *self, const char *str_)", 1),
@@ -149,9 +153,9 @@ def extract_meta(ctx):
     t = R(t, [("method", r"^MetaContainer meta\(void\) const", "struct MetaContainer Port_meta(const struct Port *self)", 1),
               ("temp-ctor", r"return MetaContainer\(", "return MetaContainer_make(", 2)], log, "Port::meta")
     out.append("#define metadata (self->metadata)\n" + t + "\n#undef metadata")
-    text = "\n\n".join(out) + "\n"
-    extract.write(ctx, EXT, text)
-    return text
+    text2 = "\n\n".join(out) + "\n"
+    extract.write(ctx, EXT2, text2)
+    return text + text2
 
 
 # --------------------------------------------------------------------------- literal blocks from the real macros
@@ -201,7 +205,8 @@ def gen_literals(ctx):
 def prepare(ctx):
     extract_meta(ctx)
     specs = inject_loops.parse_loops_file(os.path.join(vlib.VERIF, "contracts", "meta.loops"))
-    inject_loops.inject(ctx.ext, specs, EXT, os.path.join(ctx.ext, "inj_" + EXT), ctx.notes)
+    for f in (EXT, EXT2):
+        inject_loops.inject(ctx.ext, specs, f, os.path.join(ctx.ext, "inj_" + f), ctx.notes)
     gen_literals(ctx)
 
 
